@@ -657,3 +657,31 @@ Definition obs_live_ids (obs : list (list odoc)) : list (list N) :=
   map (fun sg => sort_by N.leb (map (fun d => fst (fst d)) (filter (fun d => snd d) sg))) obs.
 Definition spec_content (h : list hop) (obs : list (list odoc)) : bool :=
   list_eqb (list_eqb N.eqb) (spec_replay h) (obs_live_ids obs).
+
+(* ---- spec: the later text fields of the harness documents, as functions of the id:
+   (id, fieldnorm body, fieldnorm wf, fieldnorm opt, tf of the shared term of the WithFreqs field) *)
+Definition spec_attached (l : list (N * N * N * N * N)) : bool :=
+  forallb (fun e => match e with (id, nb, nw, no, tf) =>
+    N.eqb nb (1 + N.modulo id 5)
+    && N.eqb nw (if N.eqb (N.modulo id 4) 3 then 0 else 2 + N.modulo id 3)
+    && N.eqb no (if N.eqb (N.modulo id 3) 0 then 2 else 0)
+    && N.eqb tf (if N.eqb (N.modulo id 4) 3 then 0 else 1 + N.modulo id 3) end) l.
+
+(* ------------------------------------------------------------------ the writers' own encodings *)
+
+(* FieldNormsWriter: a per-field buffer has one byte per document up to the last document holding the
+   field; SegmentWriter::finalize_inner pads it (fill_up_to_max_doc) BEFORE the mapping indexes it by old id *)
+Definition fill_up_to_max_doc (max_doc : nat) (f : list N) : list N := f ++ repeat 0 (max_doc - length f).
+Definition serialize_fieldnorms (m : option doc_id_mapping) (max_doc : nat) (f : list N) : list N :=
+  let padded := fill_up_to_max_doc max_doc f in
+  match m with Some m => remap m padded 0 | None => padded end.
+
+(* TermFrequencyRecorder: doc ids are recorded as deltas to the previous (OLD) doc id; serialize with a
+   mapping rebuilds the old id (`doc_id = prev_doc + delta; prev_doc = doc_id`), remaps it when pushing,
+   then sorts by new doc id *)
+Fixpoint delta_encode (prev : nat) (docs : list nat) : list nat :=
+  match docs with [] => [] | d :: r => (d - prev)%nat :: delta_encode d r end.
+Fixpoint delta_decode (prev : nat) (deltas : list nat) : list nat :=
+  match deltas with [] => [] | x :: r => (prev + x)%nat :: delta_decode (prev + x)%nat r end.
+Definition serialize_tf_recorder {P} (m : doc_id_mapping) (deltas : list nat) (payloads : list P) : plist P :=
+  sort_by doc_le (combine (map (get_new_doc_id m) (delta_decode 0 deltas)) payloads).
